@@ -1,0 +1,55 @@
+//go:build verif
+
+package http
+
+import (
+	"net"
+	"sync"
+)
+
+// Verification hooks, only compiled with the "verif" build tag.
+
+// VerifListen, when set, supplies the listener of every server created by
+// NewServer (instead of a TCP socket), so that a simulator owns the network.
+var VerifListen func(port string) net.Listener
+
+// VerifBeforeLock, when set, is called before the server takes the accessory
+// mutex, so that a cooperative scheduler can park the goroutine with no lock held.
+var VerifBeforeLock func(m *sync.Mutex)
+
+var (
+	verifMu        sync.Mutex
+	verifListeners = map[*Server]net.Listener{}
+)
+
+func verifNewServer(c Config) *Server {
+	if VerifListen == nil {
+		return nil
+	}
+	ln := VerifListen(c.Port)
+	s := testable(c)
+	_, s.port, _ = net.SplitHostPort(ln.Addr().String())
+	verifMu.Lock()
+	verifListeners[s] = ln
+	verifMu.Unlock()
+	return s
+}
+
+func verifListener(s *Server) net.Listener {
+	verifMu.Lock()
+	defer verifMu.Unlock()
+	return verifListeners[s]
+}
+
+// VerifForget drops the simulator's listener registered for s.
+func VerifForget(s *Server) {
+	verifMu.Lock()
+	delete(verifListeners, s)
+	verifMu.Unlock()
+}
+
+func verifBeforeLock(m *sync.Mutex) {
+	if VerifBeforeLock != nil {
+		VerifBeforeLock(m)
+	}
+}
